@@ -396,6 +396,51 @@ impl Run<'_> {
         self.ctx.event(&ev);
         self.ctx.sample(|| ev.clone());
     }
+    /// date-time `a` against the calendar date (a.y, a.mo, day): checked here, no offline part
+    fn cmp_date(&mut self, a: &Ts, day: i64) {
+        use std::cmp::Ordering;
+        let xa = a.text(0, true);
+        let h = hash_combine(hash_str(&xa), 0x6474 + day as u64);
+        if !self.ctx.mine(h) {
+            return;
+        }
+        let want = a.d.cmp(&day);
+        let r = guard(|| {
+            let da = DateTime::from_str(&xa)?;
+            let dd = liquid::model::Date::from_ymd(a.y as i32, a.mo as u8, day as u8);
+            let (va, vd) = (Value::scalar(da), Value::scalar(dd));
+            let api = (va == vd, vd == va, va.partial_cmp(&vd), vd.partial_cmp(&va));
+            let mut o = Object::new();
+            o.insert("a".into(), va);
+            o.insert("b".into(), vd);
+            Some((api, render(&self.tp.cmp, &o)))
+        });
+        self.ctx.record(h, a.off != 0);
+        self.ctx.count("family:compare-datetime-with-date");
+        let replay = || json!({"check":"C17","kind":"cmp-date","a": xa, "date": format!("{:04}-{:02}-{:02}", a.y, a.mo, day)});
+        match r {
+            Err(p) => self.ctx.violation(&p.key(), &format!("comparing {xa} with a date panicked: {}", p.msg), replay),
+            Ok(None) => self.ctx.count("compare-datetime-with-date:unparsed"),
+            Ok(Some(((eq, eq_rev, c, c_rev), out))) => {
+                let tpl = match &out {
+                    Out::Ok(s) => Some((s.contains('E'), s.contains('L'), s.contains('G'))),
+                    _ => None,
+                };
+                let ok_api = eq == (want == Ordering::Equal) && eq_rev == eq && c == Some(want) && c_rev == Some(want.reverse());
+                let ok_tpl = tpl.map_or(true, |(e, l, g)| e == (want == Ordering::Equal) && l == (want == Ordering::Less) && g == (want == Ordering::Greater));
+                if !ok_api || !ok_tpl {
+                    self.ctx.violation(
+                        "compare:datetime-vs-date-not-by-shown-day",
+                        &format!(
+                            "{xa} against the date {:04}-{:02}-{:02}: expected {want:?} by the calendar day shown; Value API eq={eq} rev-eq={eq_rev} cmp={c:?} rev-cmp={c_rev:?}; template (E,L,G)={tpl:?}",
+                            a.y, a.mo, day
+                        ),
+                        replay,
+                    );
+                }
+            }
+        }
+    }
     fn cmp(&mut self, a: &Ts, b: &Ts) {
         let (xa, xb) = (a.text(0, true), b.text(0, false));
         for via_template in [false, true] {
@@ -565,6 +610,24 @@ pub fn run(ctx: &mut Ctx) {
             }
         }
     }
+
+    // W8: a date-time against a calendar date (the DateTime/Date arms of scalar_eq / scalar_cmp):
+    // decided by the calendar day the date-time shows in its own offset -- taken here from the
+    // fields the text was written from, never from the code under test. Times close to midnight
+    // with non-zero offsets are the cases where the UTC day differs from the shown day.
+    for base in &cmp_bases {
+        for &off in &cmp_offs {
+            for (h, mi) in [(0, 0), (0, 30), (1, 0), (12, 0), (23, 0), (23, 59)] {
+                let a = Ts { h, mi, off, ..*base };
+                if !(2..=27).contains(&a.d) {
+                    continue;
+                }
+                for dd in [-1i64, 0, 1] {
+                    r.cmp_date(&a, a.d + dd);
+                }
+            }
+        }
+    }
 }
 
 /// varied timestamps: single- and double-digit fields, range ends, pre-epoch, leading-zero fractions
@@ -705,6 +768,20 @@ fn random_format(g: &mut Rng) -> String {
 pub fn replay(j: &Json) -> bool {
     let tp = Tpls::new();
     let kind = j["kind"].as_str().or(j["ev"].as_str()).unwrap_or("fmt");
+    if kind == "cmp-date" {
+        use std::cmp::Ordering;
+        let (xa, ds) = (j["a"].as_str().unwrap_or(""), j["date"].as_str().unwrap_or(""));
+        let (Some(da), Some(dd)) = (DateTime::from_str(xa), liquid::model::Date::from_str(ds)) else {
+            println!("c17 replay: cannot parse {xa:?} / {ds:?}");
+            return false;
+        };
+        // the shown day is the first ten characters of the default text form
+        let want = xa.get(..10).unwrap_or("").cmp(ds);
+        let (va, vd) = (Value::scalar(da), Value::scalar(dd));
+        let (eq, c) = (va == vd, va.partial_cmp(&vd));
+        println!("{xa} against the date {ds}: expected {want:?} by the shown calendar day; observed eq={eq} cmp={c:?}");
+        return eq != (want == Ordering::Equal) || c != Some(want);
+    }
     let ev = match kind {
         "rt" => {
             let Some(ts) = Ts::from_json(&j["ts"]) else {
